@@ -154,7 +154,7 @@ theorem parsed_program_never_panics (ctx : PCtx) (pf : Nat) (toks : List Token) 
 /-- the invariant itself, for every state a run can end in: references in bounds, scopes non-empty -/
 theorem run_keeps_invariant (prog : List Stmt) (hp : progWF prog = true) (g : GcMode) (f k : Nat) (w : World) (s' : St)
     (h : runLoop prog g f k prog (St.init w) = .ok s') : StOK (fun _ _ => True) prog s' := by
-  have := runLoop_good (fun _ _ => True) prog hp (fun _ _ _ _ _ _ _ _ _ => trivial) g f k prog (St.init w)
+  have := runLoop_good (fun _ _ => True) prog hp (fun _ _ _ _ _ _ _ _ _ _ => trivial) g f k prog (St.init w)
     (IsSuffixOf.refl _) (stOK_init _ prog w)
   rw [h] at this; exact this
 
@@ -162,7 +162,7 @@ theorem run_keeps_invariant (prog : List Stmt) (hp : progWF prog = true) (g : Gc
     (this is what `run_never_panics` iterates; stated for arbitrary reachable-like states, not only runs) -/
 theorem step_never_panics (prog : List Stmt) (hp : progWF prog = true) (f : Nat) (cur : List Stmt) (s : St)
     (hsuf : IsSuffixOf cur prog) (hs : StOK (fun _ _ => True) prog s) (p : String) : exec prog f cur s ≠ .panic p := by
-  have := (evalInv (fun _ _ => True) prog hp (fun _ _ _ _ _ _ _ _ _ => trivial) f).exec cur s hsuf hs
+  have := (evalInv (fun _ _ => True) prog hp (fun _ _ _ _ _ _ _ _ _ _ => trivial) f).exec cur s hsuf hs
   intro h; rw [h] at this; exact this
 
 /-- non-vacuity: a program with a record literal, a re-assignment and a list index is well formed, and the
